@@ -452,7 +452,7 @@ func c04Unchanged(call ssa.CallInstruction, tolerated []string) (bool, string) {
 
 func c04R4(c *Ctx) {
 	const R = "C04.R4.callback-sequencing"
-	c.Expect(R, 20)
+	c.Expect(R, 19)
 	pre := c01FieldOf(c.P, "", "CopyGraphOptions", "PreCopy")
 	post := c01FieldOf(c.P, "", "CopyGraphOptions", "PostCopy")
 	if pre == nil || post == nil {
